@@ -109,3 +109,215 @@ Definition ex_self_loop : lattice :=
   mkLattice 4 [(1, 1); (3, 1)]%Z [(0, 1); (1, 1)]%nat [(0, 0); (1, 0)]%Z.
 Example C01_self_loop_can_fail : no_self_loops ex_self_loop = false.
 Proof. reflexivity. Qed.
+
+(* ---------------------------------------------------------------------------------------------------------
+   Geometry fact G1 ("winding = -1" is "traversed anticlockwise, positive area"), PROVED for triangles and for
+   convex polygons with any number of sides (Proofs/WindingConvexTri.v, Proofs/WindingConvex.v).  Edge vectors
+   are the scaled integer vectors of the model; p is the arbitrary start point of the unwrapped polygon.
+   NOT covered: non-convex simple polygons (the general Umlaufsatz) - still compared per input by the harness. *)
+From Koala Require Import Proofs.WindingConvexTri Proofs.WindingConvex.
+
+(* n = 3: any non-degenerate closed triangle, no other hypothesis *)
+Theorem C01_G1_triangle : forall p v0 v1 v2,
+  vsum [v0; v1; v2] = vzero -> vcross v0 v1 <> 0%Z ->
+  (winding [v0; v1; v2] = (-1)%Z <-> (0 < area2 (cumsum_from p [v0; v1; v2]))%Z).
+Proof. exact G1_triangle. Qed.
+Print Assumptions C01_G1_triangle.
+
+(* every n: convex_ccw vs  =  vs <> [], the vectors sum to zero, every vertex is a strict left turn
+   (vcross v_{i-1} v_i > 0 cyclically, [left_turns]) and the directions, read cyclically from a suitable edge,
+   are strictly increasing in angle within ONE revolution (angle measured anticlockwise from (0,-1), [ang_lt]);
+   convex_cw vs = the reversed walk (rv vs = map vneg (rev vs)) is convex_ccw.
+   Such a walk has >= 3 sides (convex_length).  Without "one revolution" the statement is false: the
+   pentagram [(4,0);(-3,2);(1,-4);(1,4);(-3,-2)] has only left turns and winding -2. *)
+Theorem C01_G1_convex : forall vs p,
+  (convex_ccw vs -> winding vs = (-1)%Z /\ (0 < area2 (cumsum_from p vs))%Z) /\
+  (convex_cw vs -> winding vs = 1%Z /\ (area2 (cumsum_from p vs) < 0)%Z).
+Proof. exact G1_convex. Qed.
+Print Assumptions C01_G1_convex.
+
+(* ... hence on the model's plaquette record of a convex walk (either way round) the coded filter
+   "winding number = -1" and the property's "positive area" are the same test *)
+Theorem C01_G1_convex_plaquette : forall L w,
+  convex_ccw (map (dvec L) w) \/ convex_cw (map (dvec L) w) ->
+  (p_winding (mk_plaquette L w) = (-1)%Z <-> (0 < p_area2 (mk_plaquette L w))%Z).
+Proof. exact G1_convex_plaquette. Qed.
+Print Assumptions C01_G1_convex_plaquette.
+
+Example C01_G1_triangle_nonvacuous :
+  vsum [(3, 1); (-2, 2); (-1, -3)]%Z = vzero /\ vcross (3, 1)%Z (-2, 2)%Z <> 0%Z /\
+  winding [(3, 1); (-2, 2); (-1, -3)]%Z = (-1)%Z /\ winding [(-2, 2); (3, 1); (-1, -3)]%Z = 1%Z.
+Proof. repeat split; vm_compute; congruence. Qed.
+
+(* a hexagon with two edges exactly on the branch cut's axis, listed from an edge that is NOT the angularly
+   first one; its reversal; and the pentagram (all left turns, two revolutions) *)
+Definition ex_hexagon : list vec := [(0, 2); (-2, 1); (-2, -1); (0, -2); (2, -1); (2, 1)]%Z.
+Example C01_G1_convex_nonvacuous :
+  convex_ccw ex_hexagon /\ convex_cw (rv ex_hexagon) /\
+  winding ex_hexagon = (-1)%Z /\ winding (rv ex_hexagon) = 1%Z /\
+  winding [(4, 0); (-3, 2); (1, -4); (1, 4); (-3, -2)]%Z = (-2)%Z.
+Proof.
+  assert (H : convex_ccw ex_hexagon).
+  { split; [discriminate|]. split; [reflexivity|]. split.
+    - unfold left_turns. vm_compute. repeat constructor.
+    - exists [(0, 2); (-2, 1); (-2, -1)]%Z, [(0, -2); (2, -1); (2, 1)]%Z. split; [reflexivity|].
+      unfold ang_sorted. repeat constructor. }
+  split; [exact H|]. split; [unfold convex_cw; rewrite rv_involutive; exact H|].
+  repeat split; vm_compute; reflexivity.
+Qed.
+
+(* ====================================================================================================
+   S as a PROVED spec checker (DESIGN section 0).  Model/SpecC01.v: spec_c01 L P takes the IMPLEMENTATION's
+   reported plaquettes P as (vertices, edges, directions) triples; Proofs/SpecC01Facts.v: it accepts exactly
+   the lists that enumerate the legitimate faces.  The extracted checker (driver c01s) is run by
+   harness/c01.py on lattice.plaquettes of every generated lattice.
+
+   legit_enumeration L P  (stated on closed orbits of the dart successor nd, not on the model's face list):
+     le_len      the three arrays of every plaquette have the same length (= n_sides, see spec_c01n)
+     le_walk     every plaquette is a consistent closed walk (edge ids exist; i-th edge in i-th direction leads
+                 from the i-th vertex to the (i+1)-th, cyclically: C01_closed_walk_by_position)
+     le_sound    every plaquette is, as a cyclic sequence of directed edges, a closed orbit of nd that uses no
+                 edge twice, has zero net crossing and POSITIVE AREA (the property's wording, not winding = -1)
+     le_once     no two entries are the same cyclic sequence ("each one once": C01_each_face_exactly_once)
+     le_complete every such orbit is reported
+     le_darts    no directed edge belongs to two plaquettes
+   NOT covered by the checker: the float clause "center is the area centroid" (stays in the Python S, with a
+   tolerance), and G2 (orbits of nd are the faces of the drawing). *)
+From Koala Require Import Model.SpecC01 Proofs.SpecC01Facts.
+
+(* soundness AND completeness of the extracted checker *)
+Theorem C01_spec_checker_correct : forall L P,
+  good L -> (spec_c01 L P = true <-> legit_enumeration L P).
+Proof. exact spec_c01_correct. Qed.
+Print Assumptions C01_spec_checker_correct.
+
+(* the form the driver runs: each plaquette with its reported n_sides *)
+Theorem C01_spec_checker_n_sides_correct : forall L (P : list (nat * triple)),
+  good L ->
+  (spec_c01n L P = true <->
+   (forall nt, In nt P -> fst nt = length (t_edges (snd nt))) /\ legit_enumeration L (map snd P)).
+Proof. exact spec_c01n_correct. Qed.
+Print Assumptions C01_spec_checker_n_sides_correct.
+
+(* the sub-check index printed in a replay message is None exactly when the checker accepts *)
+Theorem C01_spec_first_fail_iff : forall L P, spec_c01_first_fail L P = None <-> spec_c01 L P = true.
+Proof. exact spec_c01_first_fail_None. Qed.
+Print Assumptions C01_spec_first_fail_iff.
+
+(* relation to the CODED filter: if on L every face walk that uses no edge twice and has no net crossing
+   satisfies  winding = -1 <-> area2 > 0  (geometry fact G1, evaluated per input: g1_holds L, printed by the
+   driver), then the checker accepts the model's own plaquette list (so, with the correspondence run K, a
+   rejection of the implementation's list is a defect of the implementation, not of the winding filter) *)
+Theorem C01_spec_accepts_model_under_G1 : forall L,
+  good L -> g1_holds L = true ->
+  exists ps, find_all_plaquettes L = Some ps /\
+             spec_c01 L (map triple_of ps) = true /\
+             spec_c01n L (map (fun p => (n_sides p, triple_of p)) ps) = true.
+Proof. exact spec_accepts_model_under_G1. Qed.
+Print Assumptions C01_spec_accepts_model_under_G1.
+
+(* what makes le_sound / le_complete well defined: "no edge twice, zero net crossing, positive area" does not
+   depend on the directed edge a face walk is started on (shoelace area of the unwrapped closed polygon is
+   invariant under rotation of the walk and under the change of periodic image that comes with it) *)
+Theorem C01_legit_rotation_invariant : forall L w w',
+  good L -> orbit_walk L w -> rot w w' -> legit_walk L w -> legit_walk L w'.
+Proof. exact legit_rot. Qed.
+Print Assumptions C01_legit_rotation_invariant.
+
+(* two closed orbits of nd through a common directed edge are rotations of each other (faces are well defined) *)
+Theorem C01_orbit_unique_up_to_rotation : forall L w1 w2 s1 s2,
+  orbit_walk L w1 -> orbit_walk L w2 -> In s1 w1 -> In s2 w2 -> sdart s1 = sdart s2 -> rot w1 w2.
+Proof. exact orbit_rot_common. Qed.
+Print Assumptions C01_orbit_unique_up_to_rotation.
+
+(* reading of le_complete + le_once: every legitimate face sits at exactly one position of the list *)
+Theorem C01_each_face_exactly_once : forall L P w,
+  legit_enumeration L P -> orbit_walk L w -> legit_walk L w ->
+  exists i, (i < length P)%nat /\ rot (walk_darts w) (tdarts (nth i P tnil)) /\
+            forall j, (j < length P)%nat -> rot (walk_darts w) (tdarts (nth j P tnil)) -> j = i.
+Proof. exact enumeration_exactly_once. Qed.
+Print Assumptions C01_each_face_exactly_once.
+
+(* reading of le_len + le_walk by position, in the property's words *)
+Theorem C01_closed_walk_by_position : forall L t,
+  tlen_ok t -> closed_walk L (tsteps t) ->
+  let n := length (t_edges t) in
+  forall i, (i < n)%nat ->
+    let e := nth i (t_edges t) 0%nat in let d := nth i (t_dirs t) true in
+    (e < nE L)%nat /\
+    dtail L (e, d) = nth i (t_verts t) 0%nat /\
+    dhead L (e, d) = nth (S i mod n) (t_verts t) 0%nat.
+Proof. exact closed_walk_indexed. Qed.
+Print Assumptions C01_closed_walk_by_position.
+
+(* non-vacuity on a periodic instance: the 2x2 square torus (every face crosses the cell boundary or touches
+   it; four squares).  Accepted: the four squares in another order and started on other edges than the model's
+   sweep.  Rejected, with the sub-check that says why: one square missing (9 missing-face); one square
+   reported twice from two start edges (8 duplicate); a square traversed clockwise (3 not-a-face: the reversed
+   sequence is no orbit of nd); a walk that is not closed (2 closed-walk). *)
+Definition ex_torus_2x2 : lattice :=
+  mkLattice 4 [(1, 1); (3, 1); (1, 3); (3, 3)]%Z
+            [(0, 1); (1, 0); (2, 3); (3, 2); (0, 2); (2, 0); (1, 3); (3, 1)]%nat
+            [(0, 0); (1, 0); (0, 0); (1, 0); (0, 0); (0, 1); (0, 0); (0, 1)]%Z.
+Definition sqA : triple := ([3; 2; 0; 1], [2; 4; 0; 6], [false; false; true; true])%nat.
+Definition sqA' : triple := ([0; 1; 3; 2], [0; 6; 2; 4], [true; true; false; false])%nat.
+Definition sqB : triple := ([1; 0; 2; 3], [0; 5; 2; 7], [false; false; true; true])%nat.
+Definition sqC : triple := ([0; 2; 3; 1], [4; 3; 6; 1], [true; false; false; true])%nat.
+Definition sqD : triple := ([0; 1; 3; 2], [1; 7; 3; 5], [false; false; true; true])%nat.
+Definition sqA_clockwise : triple := ([0; 2; 3; 1], [4; 2; 6; 0], [true; true; false; false])%nat.
+Definition sqA_open : triple := ([3; 2; 0; 3], [2; 4; 0; 6], [false; false; true; true])%nat.
+Example C01_spec_checker_correct_nonvacuous :
+  good ex_torus_2x2 /\
+  spec_c01 ex_torus_2x2 [sqD; sqA; sqC; sqB] = true /\
+  legit_enumeration ex_torus_2x2 [sqD; sqA; sqC; sqB] /\
+  spec_c01_first_fail ex_torus_2x2 [sqD; sqA; sqC] = Some 9%nat /\
+  spec_c01_first_fail ex_torus_2x2 [sqD; sqA; sqC; sqB; sqA'] = Some 8%nat /\
+  spec_c01_first_fail ex_torus_2x2 [sqD; sqA_clockwise; sqC; sqB] = Some 3%nat /\
+  spec_c01_first_fail ex_torus_2x2 [sqD; sqA_open; sqC; sqB] = Some 2%nat /\
+  ~ legit_enumeration ex_torus_2x2 [sqD; sqA; sqC].
+Proof.
+  assert (HG : good ex_torus_2x2) by (split; reflexivity).
+  split; [exact HG|]. split; [vm_compute; reflexivity|].
+  split; [apply (C01_spec_checker_correct _ _ HG); vm_compute; reflexivity|].
+  repeat (split; [vm_compute; reflexivity|]).
+  intros H. apply (C01_spec_checker_correct _ _ HG) in H. vm_compute in H. discriminate.
+Qed.
+
+Example C01_spec_accepts_model_under_G1_nonvacuous :
+  good ex_torus_2x2 /\ g1_holds ex_torus_2x2 = true /\
+  option_map (@length _) (model_triples ex_torus_2x2) = Some 4%nat /\
+  good ex_two_triangles /\ g1_holds ex_two_triangles = true.
+Proof. repeat split; vm_compute; reflexivity. Qed.
+
+(* G1, convex case, as an executable test (Proofs/WindingConvexDec.v): convex_ccwb / convex_cwb decide the
+   hypotheses of C01_G1_convex, so whether a given walk is covered by the proved case of G1 is a computation *)
+From Koala Require Import Proofs.WindingConvexDec.
+Theorem C01_G1_convex_decidable : forall vs,
+  (convex_ccwb vs = true <-> convex_ccw vs) /\ (convex_cwb vs = true <-> convex_cw vs).
+Proof. exact (fun vs => conj (convex_ccwb_spec vs) (convex_cwb_spec vs)). Qed.
+Print Assumptions C01_G1_convex_decidable.
+
+(* all three faces of ex_two_triangles are covered: the two triangles are convex anticlockwise (kept), the outer
+   face is the square walked clockwise (rejected), and on each the two tests agree by C01_G1_convex_plaquette *)
+Example C01_G1_convex_faces_nonvacuous :
+  option_map (map (fun f => (convex_ccwb (map (dvec ex_two_triangles) (f_walk f)),
+                             convex_cwb (map (dvec ex_two_triangles) (f_walk f)), f_winding f, f_area2 f)))
+             (all_faces ex_two_triangles)
+  = Some [(true, false, -1, 4); (false, true, 1, -8); (true, false, -1, 4)]%Z.
+Proof. vm_compute. reflexivity. Qed.
+
+(* the hypothesis  g1_holds L  of C01_spec_accepts_model_under_G1 (G1 on every face of L that uses no edge twice
+   and has no net crossing) is PROVED, not only evaluated, for every lattice all of whose such faces are convex
+   polygons - e.g. the faces of a Voronoi tessellation, square / honeycomb / triangular tilings; faces_convexb
+   is the executable test (Proofs/WindingConvexG1.v).  Not covered: lattices with a non-convex face, such as
+   the outer face of most open-boundary cuts or merged cells after edge deletion. *)
+From Koala Require Import Proofs.WindingConvexG1.
+Theorem C01_G1_convex_lattice : forall L,
+  good L -> faces_convexb L = true -> g1_holds L = true.
+Proof. exact g1_holds_convex. Qed.
+Print Assumptions C01_G1_convex_lattice.
+
+Example C01_G1_convex_lattice_nonvacuous :
+  good ex_two_triangles /\ faces_convexb ex_two_triangles = true /\
+  good ex_torus_2x2 /\ faces_convexb ex_torus_2x2 = true.
+Proof. repeat split; vm_compute; reflexivity. Qed.
